@@ -262,7 +262,14 @@ def episodes_of(mem):
 
 
 def _iso(age):
-    return (NOW - _dt.timedelta(days=age)).isoformat().replace("+00:00", "Z")
+    """the same instant, written in a zone that depends on the age class: timestamps are ISO 8601 with an offset, and the
+    recency window is defined on instants (30 d = window boundary is written in -05:00, 1 d in +09:00, the rest in Z)"""
+    t = NOW - _dt.timedelta(days=age)
+    if age == 30:
+        return t.astimezone(_dt.timezone(_dt.timedelta(hours=-5))).isoformat()
+    if age == 1:
+        return t.astimezone(_dt.timezone(_dt.timedelta(hours=9))).isoformat()
+    return t.isoformat().replace("+00:00", "Z")
 
 
 def build_state(eps, hybrid):
